@@ -22,13 +22,31 @@ class PathInfo:
 
 
 def _assigned_names(fn: ast.AST) -> set:
-    out = set()
-    for n in ast.walk(fn):
-        if isinstance(n, ast.Name) and isinstance(n.ctx, ast.Store):
-            out.add(n.id)
-        elif isinstance(n, ast.arg):
-            pass
-    return out
+    """Locals whose value may differ between two tests on one path: bound more than once, or bound in a loop.
+
+    A local bound exactly once outside any loop has one value wherever it is readable, so testing it
+    twice on a path must give the same answer (`is_extended = ...; if is_extended: ...; if is_extended:`).
+    """
+    count: Dict[str, int] = {}
+    looped = set()
+
+    def walk(n: ast.AST, in_loop: bool) -> None:
+        for ch in ast.iter_child_nodes(n):
+            inl = in_loop or isinstance(ch, (ast.For, ast.While, ast.ListComp, ast.SetComp, ast.DictComp, ast.GeneratorExp))
+            if isinstance(ch, ast.Name) and isinstance(ch.ctx, ast.Store):
+                count[ch.id] = count.get(ch.id, 0) + 1
+                if inl:
+                    looped.add(ch.id)
+            elif isinstance(ch, ast.AugAssign) and isinstance(ch.target, ast.Name):
+                count[ch.target.id] = count.get(ch.target.id, 0) + 2
+            walk(ch, inl)
+
+    if isinstance(fn, (ast.FunctionDef, ast.AsyncFunctionDef)):
+        a = fn.args
+        for x in a.posonlyargs + a.args + a.kwonlyargs + ([a.vararg] if a.vararg else []) + ([a.kwarg] if a.kwarg else []):
+            count[x.arg] = 1  # bound on entry: any further store makes it unstable
+    walk(fn, False)
+    return {k for k, v in count.items() if v > 1 or k in looped}
 
 
 def _contradictory(pi: "PathInfo", assigned: set) -> bool:
@@ -67,6 +85,11 @@ def function_paths(cfg: CFG, include_raise: bool = True, limit: int = 5000) -> L
                 st = node.ast
                 if isinstance(st, ast.Assign) and len(st.targets) == 1 and isinstance(st.targets[0], ast.Name):
                     pi.env[st.targets[0].id] = st.value
+                elif isinstance(st, ast.Assign) and len(st.targets) == 1 and isinstance(st.targets[0], ast.Tuple) and isinstance(st.value, ast.Tuple) and len(st.targets[0].elts) == len(st.value.elts):
+                    # a, b = x, y
+                    for a_, b_ in zip(st.targets[0].elts, st.value.elts):
+                        if isinstance(a_, ast.Name):
+                            pi.env[a_.id] = b_
                 elif isinstance(st, ast.AnnAssign) and isinstance(st.target, ast.Name) and st.value is not None:
                     pi.env[st.target.id] = st.value
                 elif isinstance(st, ast.Return):
@@ -93,6 +116,20 @@ def resolve_local(expr: Optional[ast.AST], env: Dict[str, ast.AST], depth: int =
 def feasible(pi: PathInfo, folder: Folder, fn: Func, symenv: Dict[str, Any]) -> Optional[bool]:
     """True/False when every atom folds under `symenv`; None when some atom is unknown (treated as feasible)."""
     unknown = False
+    # a loop over a constant, non-empty sequence runs its body at least once
+    entered = set()
+    lenv = None
+    for node, lab in pi.nodes:
+        if node.kind == "for":
+            if lab == "body":
+                entered.add(node.id)
+            elif lab == "exit" and node.id not in entered:
+                if lenv is None:
+                    lenv = dict(folder.local_env(fn))
+                    lenv.update(symenv)
+                seq = folder.fold(node.ast.iter, fn.module, lenv)
+                if known(seq) and isinstance(seq, (tuple, list, str, set, dict)) and len(seq) > 0:
+                    return False
     for test, truth in pi.atoms:
         v = folder.fold(test, fn.module, symenv)
         if not known(v):
